@@ -367,7 +367,7 @@ def run(ctx):
             for c in q.calls("next"):
                 if q.cfg.in_loop(c.b):
                     sy, bounds = loop_item(q, c)
-                    if sy is not None and any(bd[0] == "coll" and (fld(bd[1], "orders") or any(fld(x, "orders") for x in walk(bd[1]))) for bd in bounds):
+                    if sy is not None and not any(bd[0] == "take" for bd in bounds) and any(bd[0] == "coll" and (fld(bd[1], "orders") or any(fld(x, "orders") for x in walk(bd[1]))) for bd in bounds):
                         nx.append((c, sy))
             if len(nx) != 1:
                 ctx.lost("random", tag + ": neither a per-slot closure over self.orders nor a loop over self.orders (without restricting adapters) found")
